@@ -22,16 +22,21 @@ class Unknown(Exception):
 def struct_methods(repo: Repo, ci: ClassInfo) -> Dict[str, Tuple[str, int, Optional[bool]]]:
     """method name -> (format, width, signed) for _StructWriter / _StructReader style helpers."""
     out: Dict[str, Tuple[str, int, Optional[bool]]] = {}
+    from . import inline
+    from .packed import single_defs, resolve_names
     for name, fn in ci.methods.items():
         if name.startswith("_"):
             continue
         fmt = None
+        # private helpers (`self._write(spec, value)`) are read through; `_read` is the reader's cursor primitive and is kept
+        fn = inline.normalize(repo, ci, fn, exclude=("_read",))
+        defs = single_defs(fn)
         for n in walk_no_nested(fn):
             if isinstance(n, ast.Call):
                 f = norm(n.func)
                 if f in ("pack", "struct.pack", "self._read") and n.args:
                     try:
-                        v = repo.fold(n.args[0], ci=ci)
+                        v = repo.fold(resolve_names(n.args[0], defs), ci=ci)
                         if isinstance(v, str):
                             fmt = v
                             if f == "self._read" and len(n.args) > 1:
